@@ -7,15 +7,18 @@ C20 — Blank fields mean 'missing' and padding never influences the result.
   functions (`bool`, `normalize_datetime`); the only value tests (blank ⇒ attribute dropped) are the five optional header
   attributes (C03 `header_attrs`) — so a blank nullable field surfaces as its missing value and nothing is derived from it.
 * `padding_inert` — two dataset-summary records that parse and agree on the bytes of every LIVE field give the same group,
-  whatever their spare / blank areas contain (`leaf_window` locality + provenance).  `live_fields_only`: every leaf of the
+  whatever their spare / blank areas contain (`leaf_window` locality + provenance); `padding_inert_leader_records` — the same
+  for the radiometric, facility-5, platform-position and map-projection records.  `live_fields_only`: every leaf of the
   documented static trees names a live, context-free field of its layout — the outputs cannot depend on anything else.
 * `field_locality` — for each of the 13 fixed-size record layouts, the value at a field depends only on that field's bytes.
 
-Line records (the µs stamp is rebased on the ms stamp's date) and the dynamic-count records: by the oracle (padding rewritten
+Line records (the µs stamp is rebased on the ms stamp's date), the attitude / data-quality records (counts declared in the
+file) and the volume directory: by the oracle (padding rewritten
 with random content of its class, bit-exact tree fingerprints) — not by a theorem.  `bool(-1) = True` for blank flag columns is
 exempt by the property's own wording.
 -/
 import Alos2.Proofs.Typing
+import Alos2.Proofs.Typing2
 
 namespace Alos2.C20
 
@@ -30,6 +33,37 @@ theorem padding_inert (ctx ctx' : Ctx) (bs bs' : Bytes) (pos : Nat) (v v' : Val)
       ∀ ent ∈ tbl, livePath ent.1 = true → slice bs ent.2.1 (ent.2.1 + ent.2.2.1) = slice bs' ent.2.1 (ent.2.1 + ent.2.2.1)) :
     transformDatasetSummary realLeafFns v.toPVal = transformDatasetSummary realLeafFns v'.toPVal :=
   dataset_summary_padding_inert ctx ctx' bs bs' pos v v' e e' h h' hlive
+
+/-- the same for the radiometric, facility-5 (transformations), platform-position and map-projection records (the
+    map-projection tree depends on the designator, which is a live field) -/
+theorem padding_inert_leader_records (ctx ctx' : Ctx) (bs bs' : Bytes) (pos : Nat) (v v' : Val) (e e' : Nat) :
+    (parse Gen.radiometricDataRecord ctx bs pos = .ok (v, e) → parse Gen.radiometricDataRecord ctx' bs' pos = .ok (v', e') →
+      (∀ tbl endp, Con.leafTable Gen.radiometricDataRecord [] pos = some (tbl, endp) →
+        ∀ ent ∈ tbl, livePath ent.1 = true → slice bs ent.2.1 (ent.2.1 + ent.2.2.1) = slice bs' ent.2.1 (ent.2.1 + ent.2.2.1)) →
+      transformRadiometricData v.toPVal = transformRadiometricData v'.toPVal) ∧
+    (parse Gen.facilityRelatedData5Record ctx bs pos = .ok (v, e) → parse Gen.facilityRelatedData5Record ctx' bs' pos = .ok (v', e') →
+      (∀ tbl endp, Con.leafTable Gen.facilityRelatedData5Record [] pos = some (tbl, endp) →
+        ∀ ent ∈ tbl, livePath ent.1 = true → slice bs ent.2.1 (ent.2.1 + ent.2.2.1) = slice bs' ent.2.1 (ent.2.1 + ent.2.2.1)) →
+      transformRecord5 realLeafFns v.toPVal = transformRecord5 realLeafFns v'.toPVal) ∧
+    (parse Gen.platformPositionRecord ctx bs pos = .ok (v, e) → parse Gen.platformPositionRecord ctx' bs' pos = .ok (v', e') →
+      (∀ tbl endp, Con.leafTable Gen.platformPositionRecord [] pos = some (tbl, endp) →
+        ∀ ent ∈ tbl, livePath ent.1 = true → slice bs ent.2.1 (ent.2.1 + ent.2.2.1) = slice bs' ent.2.1 (ent.2.1 + ent.2.2.1)) →
+      transformPlatformPosition realLeafFns2 v.toPVal = transformPlatformPosition realLeafFns2 v'.toPVal) ∧
+    (parse Gen.mapProjectionRecord ctx bs pos = .ok (v, e) → parse Gen.mapProjectionRecord ctx' bs' pos = .ok (v', e') →
+      (∀ tbl endp, Con.leafTable Gen.mapProjectionRecord [] pos = some (tbl, endp) →
+        ∀ ent ∈ tbl, livePath ent.1 = true → slice bs ent.2.1 (ent.2.1 + ent.2.2.1) = slice bs' ent.2.1 (ent.2.1 + ent.2.2.1)) →
+      transformMapProjection realLeafFns2 v.toPVal = transformMapProjection realLeafFns2 v'.toPVal) :=
+  ⟨fun h h' hl => radiometric_padding_inert ctx ctx' bs bs' pos v v' e e' h h' hl,
+   fun h h' hl => record5_padding_inert ctx ctx' bs bs' pos v v' e e' h h' hl,
+   fun h h' hl => platform_position_padding_inert ctx ctx' bs bs' pos v v' e e' h h' hl,
+   fun h h' hl => map_projection_padding_inert ctx ctx' bs bs' pos v v' e e' h h' hl⟩
+
+theorem live_fields_only2 :
+    pathsCovered (Spec.platformPosition.leaves.flatMap Sym.paths) Gen.platformPositionRecord = true ∧
+    pathsCovered (Spec.mapProjectionUTM.leaves.flatMap Sym.paths) Gen.mapProjectionRecord = true ∧
+    pathsCovered (Spec.mapProjectionUPS.leaves.flatMap Sym.paths) Gen.mapProjectionRecord = true ∧
+    pathsCovered (Spec.mapProjectionNAT.leaves.flatMap Sym.paths) Gen.mapProjectionRecord = true ∧
+    pathsCovered (Spec.mapProjectionOther.leaves.flatMap Sym.paths) Gen.mapProjectionRecord = true := spec_paths_live2
 
 theorem live_fields_only :
     pathsCovered (Spec.datasetSummary.leaves.flatMap Sym.paths) Gen.datasetSummaryRecord = true ∧
